@@ -11,7 +11,7 @@ CONSTANTS
   StoreFaults = FALSE
   LoseDB = TRUE
   HeaderHasPrev = FALSE
-  FixedF4 = TRUE
+  FixedF4 = "v2"
 INIT Init
 NEXT Next
 VIEW view
